@@ -174,6 +174,34 @@ def starvation(rng):
     return h.case("starvation", drain=True)
 
 
+def thief_starvation(rng):
+    """C06 bias: a handle that keeps running dry and is fed by stealing from a sibling (or by bursts of
+    its own pushes) pops 130-200 times while an item sits in the shared queue."""
+    n = rng.choice([2, 2, 3])
+    cap = rng.choice([4, 8, 64])
+    h = Hist(rng, n, cap)
+    thief = rng.randrange(n)
+    victim = rng.choice([x for x in range(n) if x != thief])
+    h.gpush("mix")
+    burst = rng.choice([0, 0, 3, 10, 40])
+    pops = rng.randint(130, 200)
+    own = 0
+    for i in range(pops):
+        if burst and i % (burst + 3) == 0:
+            for _ in range(min(burst, cap - 1)):
+                h.lpush(thief, "mix")
+                own += 1
+        if own == 0:
+            h.lpush(victim, "mix")      # one stealable item for the next dry pop
+        else:
+            own -= 1
+        h.lpop(thief, start=victim if rng.random() < 0.8 else None)
+        if rng.random() < 0.02:
+            h.gpush("mix")
+    h.drain()
+    return h.case("thief_starvation", drain=True)
+
+
 def op_term(o):
     k = o["op"]
     if k == "gpush":
